@@ -24,7 +24,8 @@ func init() { register(schemaStream{}) }
 func (schemaStream) Name() string          { return "schema" }
 func (schemaStream) TrivialTags() []string { return nil }
 
-const schemaRoot = "/tmp/cdi-verif-schema"
+// per-process scratch root: concurrent runs of the harness must not share a tree
+var schemaRoot = scratchRoot("/tmp/cdi-verif-schema")
 
 var schemaMutations = []string{"wrong-type-any", "null-member", "unknown-member", "missing-required", "num-range", "fraction",
 	"bad-annotation", "boundary", "null-entry", "integral-fraction"}
